@@ -195,7 +195,20 @@ def execute(cfg, V):
             watch(inputs=inp, tin=tin)
             s = csol.TransientSolution(circuit=ca, tin=tin, input=inp, solver=stub)
             return [s.get_voltage(V.label('R1'))[1], s.get_current(V.label('C1'))[1], s.get_potential(V.label('n2'))[1]]
+        box = {}
+        def td_reuse():
+            # the SAME returned time functions evaluated again (a plot evaluates them more than once)
+            if 'f' not in box:
+                s_ = csol.TimeDomainSolution(circuit=ca, w_max=wm)
+                box['f'] = (s_.get_voltage(V.label('R1')), s_.get_current(V.label('C1')), s_.get_potential(V.label('n2')), s_.get_power(V.label('R1')))
+            return [g(t) for g in box['f']]
+        def cx_reuse():
+            # the SAME solution object queried again
+            if 's' not in box: box['s'] = csol.ComplexSolution(circuit=ca, w=w, peak_values=True)
+            return q(box['s'])
         fns = {
+            'cir_time_reuse': td_reuse,
+            'cir_complex_reuse': cx_reuse,
             'cir_transform': lambda: [_net(n) for n in cct.transform(ca, w=wl)],
             'cir_transform_default': lambda: [_net(n) for n in cct.transform(ca)],
             'cir_frequency_components': lambda: list(cct.frequency_components(ca, wm)),
@@ -255,7 +268,7 @@ def _ssm(m):
     return [m.A, m.B, m.C, m.D]
 
 
-OPS = ['net_solve', 'net_remove_short', 'net_remove_short_keep', 'net_remove_open', 'net_short_circuitify', 'net_open_circuitify', 'net_remove_ideal_cs',
+OPS = ['cir_time_reuse', 'cir_complex_reuse', 'net_solve', 'net_remove_short', 'net_remove_short_keep', 'net_remove_open', 'net_short_circuitify', 'net_open_circuitify', 'net_remove_ideal_cs',
        'net_remove_ideal_vs', 'net_passive', 'net_switch_ground', 'net_remove_element', 'net_port_impedance', 'net_element_impedance', 'net_open_circuit_voltage',
        'cir_transform', 'cir_transform_default', 'cir_frequency_components', 'cir_dc', 'cir_complex', 'cir_time', 'cir_frequency', 'cir_transient', 'cir_state_space',
        'cir_state_space_defaults', 'cir_nodal_state_space', 'cir_impedance',
